@@ -17,7 +17,7 @@ from vlib.common import *
 
 PROP = "C13"
 STD = "/repo/vhdl_libraries"
-MODES = {1: "respace", 2: "comments", 4: "case", 7: "respace+comments+case"}
+MODES = {1: "respace", 2: "comments", 4: "case", 7: "respace+comments+case", 8: "join-onto-one-line", 16: "one-token-per-line"}
 
 
 # ---------------------------------------------------------------------------------------------
@@ -337,7 +337,7 @@ def oracle_stage(res, d, hbin, tier):
                     if l.strip() and not l.startswith("#"):
                         g.write(l if l.endswith("\n") else l + "\n")
                         nin += 1
-    ngen, ntrans = (3500, 12) if tier == "thorough" else (150, 4)
+    ngen, ntrans = (3500, 12) if tier == "thorough" else (150, 6)
     out = os.path.join(d, "oracle.jsonl")
     if os.path.exists(out):
         os.remove(out)
@@ -378,7 +378,7 @@ def oracle_stage(res, d, hbin, tier):
             if k != "files_kept":
                 changed += r[k]
         res.count_case("proj %s %s %s" % (r["id"], r["k"], r["tseed"]), r["ndiag"] > 0 and changed > 0)
-        if r["id"].startswith("G:") and r["k"] == 3 and r["ndiag"] > 0:
+        if r["id"].startswith("G:") and r["k"] in (3, 4) and r["ndiag"] > 0:
             res.add_sample({"project": r["id"], "transformation": m, "diagnostics_of_original": r["ndiag"],
                             "codes": r["codes"], "tokens": r["ntokens"], "case_changed_tokens": r["changed_case"],
                             "gaps_changed": r["changed_gaps"], "comments_added": r["comments_added"], "verdict": v}, limit=6)
@@ -476,10 +476,11 @@ def main(tier, replay=None):
         "optional configuration/context/duplicate unit, optional second library; identifiers already written in mixed "
         "case; 0..4 seeded faults per project: undeclared names, type errors, duplicate declarations incl. "
         "case-different spellings, missing units/architectures/formals, extended identifiers differing only by case, "
-        "unused declarations, missing/superfluous sensitivity-list entries, syntax errors).  Each project is analysed as "
-        "it is and after k%4 = 0 re-spacing of every gap (blanks, tabs, LF, CRLF, empty where two tokens may touch), "
-        "1 insertion/deletion of line and block comments, 2 case permutation of keywords and basic identifiers "
-        "(extended identifiers, literals, strings untouched), 3 all of them; the transformed text must give the same "
+        "unused declarations, missing/superfluous sensitivity-list entries, syntax errors; positional generic/port maps of entity and component instantiations with 4 differently typed formals written on one line or one per line, positional subprogram calls and record aggregates).  Each project is analysed as "
+        "it is and after k%6 = 0 re-spacing of every gap (blanks, tabs, LF, CRLF, empty where two tokens may touch), "
+        "1 insertion/deletion of line and block comments (every star/slash pattern, quotes, Latin-1, CR/CRLF, directly after a "
+        "token, at end of file), 2 case permutation of keywords and basic identifiers (extended identifiers, literals, "
+        "strings untouched), 3 all of them, 4 every file joined onto ONE line (comments dropped), 5 ONE TOKEN PER LINE; the transformed text must give the same "
         "token kinds/values/Symbol ids (lexer half) and the same multiset of (code, token index of range start and end, "
         "message lower-cased, multiset of related (token index, message)); syntax errors by code and number of tokens "
         "ending at or before the anchor.  Both versions use the same file paths.  SYMBOL TABLE: the 256 bytes, every "
@@ -510,16 +511,18 @@ def main(tier, replay=None):
         "every numeric value unchanged and changes text values only in letter case (C13_case_invariant_partial: a "
         "simulation proof over the whole tokenizer model, hypothesis directives_agree), case variants of a basic "
         "identifier are the same symbol in every reachable table (C13_case_same_symbol), untouched strings/character "
-        "literals/extended identifiers keep their values (C13_case_untouched_values); re-layout invariance only by "
-        "bounded exhaustive evaluation of 1728 lexeme triples x 8 gaps + 144 pairs x 32 gap combinations "
+        "literals/extended identifiers keep their values (C13_case_untouched_values); re-layout: two writings of the "
+        "token list of a diagnostic-free text with any gaps of blanks, line breaks, line and block comments that obey "
+        "the separator discipline lex to the same kinds and values (C13_relayout_invariant, derived from the C12 "
+        "render->lex round trip Lex/Render*.v), plus a bounded exhaustive evaluation incl. tabs "
         "(C13_relayout_invariant_partial).  Exploration half "
         "(DECISIVE for the property as worded, since it quantifies over parser, semantic analysis and lints which are "
         "not modelled): the project-vs-transformed-project oracle over harvested and generated valid and erroneous "
         "multi-file projects, on every run.")
     res.coverage["unproved"] = [
         "later stages (parser, analysis, lints) use only token kinds, values and symbol ids: explored by the oracle",
-        "re-layout invariance of the tokenizer for all texts (positions shift, no lock-step simulation): bounded sweep "
-        "proved, arbitrary texts explored by the lexer half of the oracle (kinds, values, symbol ids of every transformed file)",
+        "re-layout with tabs, CR/CRLF or other blank characters in the gaps, and of texts with lexical diagnostics or tool "
+        "directives (the general theorem's pieces know blank and LF only): explored by the lexer half of the oracle",
         "that a case change confined to keywords and basic identifiers satisfies directives_agree (it cannot touch a comment)",
     ]
     res.assumptions = [
